@@ -27,18 +27,37 @@ Theorem PIPE_prev_ids_panic_iff :
 Proof. exact prev_ids_panic_iff. Qed.
 Print Assumptions PIPE_prev_ids_panic_iff.
 
-(* accumulating a tree of WELL-FORMED documents never panics.  [tree_wf]: every document is a mapping with a kind
-   and a metadata mapping holding a non-null scalar name, name and kind neither empty nor containing ',', no ','
-   in the namespace (RenameProofs.wf_node); per layer: no `namespace:` directive, no custom labels[].fields,
-   generators that create with a good name, comma-free namePrefix / nameSuffix.
-   Partial: the top-only steps (hash, name references) and layers with a namespace directive are not covered;
-   the remaining panic sites of the model are the name-reference setter on an empty candidate name
-   (FieldSetter with a nil Value) and IgnoreLocal's Factory.FromResourceSlice on an id collision among the kept
-   resources (PIPE_panic_hash_clash_witness; the known C12 finding panic:...FromResourceSlice). *)
-Theorem PIPE_accumulate_no_panic_partial :
+(* [tree_wf] (Res/PipelineWfProofs.v): every document is a mapping with a kind and a metadata mapping holding a
+   non-null scalar name, name and kind neither empty nor containing ',', no ',' in the namespace
+   (RenameProofs.wf_node); per layer: no custom labels[].fields, generators that create with a good name, comma-free
+   namespace / namePrefix / nameSuffix.  Namespace directives ARE covered (incl. the Namespace-kind rename row). *)
+
+(* accumulating a tree of well-formed documents never panics *)
+Theorem PIPE_accumulate_no_panic :
   forall nonstr t, tree_wf t -> accumulate nonstr t <> Panic.
 Proof. exact accumulate_no_panic. Qed.
-Print Assumptions PIPE_accumulate_no_panic_partial.
+Print Assumptions PIPE_accumulate_no_panic.
+
+(* ... and the whole build of a well-formed tree panics in exactly one situation: the hash suffixes produce an id
+   collision, on which IgnoreLocal's Factory.FromResourceSlice does panic(err) (the known C12 finding
+   panic:...FromResourceSlice; PIPE_panic_hash_clash_witness below is a well-formed tree: PIPE_clash_tree_wellformed).
+   [no_hash_clash nonstr t]: the ids are pairwise distinct right after the hash step.
+   The other panic site of the model, the name-reference setter on an empty candidate name (FieldSetter with a nil
+   Value), is unreachable on well-formed trees: every candidate is the view of a resource with a non-empty name. *)
+Theorem PIPE_build_no_panic_partial :
+  forall nonstr o t, tree_wf t -> no_hash_clash nonstr t -> build nonstr o t <> Panic.
+Proof. exact build_no_panic. Qed.
+Print Assumptions PIPE_build_no_panic_partial.
+
+Theorem PIPE_build_panic_is_hash_clash :
+  forall nonstr o t, tree_wf t -> build nonstr o t = Panic -> ~ no_hash_clash nonstr t.
+Proof. exact build_panic_is_hash_clash. Qed.
+Print Assumptions PIPE_build_panic_is_hash_clash.
+
+Theorem PIPE_clash_tree_wellformed :
+  tree_wf clash_tree /\ build (fun _ => false) PSortNone clash_tree = Panic.
+Proof. exact (conj clash_tree_wf clash_tree_panics). Qed.
+Print Assumptions PIPE_clash_tree_wellformed.
 
 (* the model also HAS the FromResourceSlice panic of IgnoreLocal: a ConfigMap read from a file whose name equals
    the hash-suffixed name of a generated one (confirmed on krusty.Run: corpus/PIPE/case_hashclash.json) *)
